@@ -93,6 +93,9 @@ class Tables:
         if not isinstance(self.rules, dict):
             raise AnalysisError("rules.json is not an object")
         nm_expr = self.rule_mod.consts.get("node_mappings")
+        if not isinstance(nm_expr, ast.Dict) or any(k is None for k in nm_expr.keys):
+            from .astutil import as_dict_literal
+            nm_expr = as_dict_literal(prog, self.rule_mod, nm_expr)  # dict(<pairs>), A | B, {**A, **B}, a comprehension over pairs
         if not isinstance(nm_expr, ast.Dict):
             raise AnalysisError("anchor vanished: rule.node_mappings is not a dict literal")
         if self.rule_mod.const_multi.get("node_mappings") != 1:
